@@ -351,7 +351,7 @@ theorem redactQueryValues_eq_gen (g : Globals) (rfn S : Bool) (fuel : Nat) (obj 
   redactQueryValues_eq g Generated.tables rfn S Gen_emailPH fuel obj pc kp hb
 
 /-- non-vacuity: a filter with a nested document, an array and a reference, through the translated functions themselves -/
-example : redactQueryValues ⟨"X".toList, true, false, false, false, false, none, none, fun _ _ => none, fun _ => [], fun _ => none, fun _ => none, fun _ _ _ => true, [], fun _ => none, fun s => s, fun _ _ _ _ => none⟩ Generated.tables 9
+example : redactQueryValues { Globals.inert with redactedString := "X".toList, redactNumbers := true } Generated.tables 9
     [("a".toList, .obj [("$gt".toList, .num "5".toList)]), ("b".toList, .arr [.str "s".toList, .str "$c".toList, .null])] false false Meta.nil [] =
     some [("a".toList, .obj [("$gt".toList, .num "0".toList)]), ("b".toList, .arr [.str "X".toList, .str "$c".toList, .null])] := by
   rfl
